@@ -390,10 +390,6 @@ impl<'a> ReMatcher<'a> {
 
     // state related
 
-    fn start_backref_len(&self) -> usize {
-        self.state.borrow().start_backref.len()
-    }
-
     pub(crate) fn start_backref(&self, i: usize) -> Option<usize> {
         self.state.borrow().start_backref[i]
     }
@@ -434,10 +430,6 @@ impl<'a> ReMatcher<'a> {
         None
     }
 
-    fn startn_len(&self) -> usize {
-        self.state.borrow().capture_state.startn.len()
-    }
-
     pub(crate) fn get_paren_start(&self, group_nr: usize) -> Option<usize> {
         if group_nr < self.state.borrow().capture_state.startn.len() {
             return self.state.borrow().capture_state.startn[group_nr];
@@ -468,29 +460,6 @@ impl<'a> ReMatcher<'a> {
             .set_paren_end(group_nr, position)
     }
 
-    pub(crate) fn clear_captured_groups_beyond(&self, pos: usize) {
-        for i in 0..self.startn_len() {
-            let start = self.capture_state_startn(i);
-            if start >= Some(pos) {
-                self.set_capture_state_endn(i, start);
-            }
-        }
-        for i in 0..self.start_backref_len() {
-            let start = self.start_backref(i);
-            if start >= Some(pos) {
-                self.set_end_backref(i, start);
-            }
-        }
-    }
-
-    fn capture_state_startn(&self, i: usize) -> Option<usize> {
-        self.state.borrow().capture_state.startn[i]
-    }
-
-    fn set_capture_state_endn(&self, i: usize, value: Option<usize>) {
-        self.state.borrow_mut().capture_state.endn[i] = value;
-    }
-
     pub(crate) fn paren_count(&self) -> usize {
         self.state.borrow().capture_state.paren_count
     }
@@ -499,13 +468,48 @@ impl<'a> ReMatcher<'a> {
         self.state.borrow_mut().capture_state.paren_count = count;
     }
 
-    pub(crate) fn capture_state(&self) -> CaptureState {
-        self.state.borrow().capture_state.clone()
+    /// Forget what the given groups captured (they have not participated in
+    /// the iteration that is about to start).
+    pub(crate) fn clear_groups(&self, groups: &[usize]) {
+        let mut state = self.state.borrow_mut();
+        for &group_nr in groups {
+            if group_nr < state.capture_state.startn.len() {
+                state.capture_state.startn[group_nr] = None;
+            }
+            if group_nr < state.capture_state.endn.len() {
+                state.capture_state.endn[group_nr] = None;
+            }
+            if group_nr < state.start_backref.len() {
+                state.start_backref[group_nr] = None;
+                state.end_backref[group_nr] = None;
+            }
+        }
     }
 
-    pub(crate) fn reset_state(&self, capture_state: CaptureState) {
-        self.state.borrow_mut().capture_state = capture_state;
+    /// The captured groups and back-reference positions, to be restored when
+    /// the match path that set them is abandoned.
+    pub(crate) fn snapshot(&self) -> Snapshot {
+        let state = self.state.borrow();
+        Snapshot {
+            capture_state: state.capture_state.clone(),
+            start_backref: state.start_backref.clone(),
+            end_backref: state.end_backref.clone(),
+        }
     }
+
+    pub(crate) fn restore(&self, snapshot: &Snapshot) {
+        let mut state = self.state.borrow_mut();
+        state.capture_state = snapshot.capture_state.clone();
+        state.start_backref = snapshot.start_backref.clone();
+        state.end_backref = snapshot.end_backref.clone();
+    }
+}
+
+#[derive(Debug, Clone)]
+pub(crate) struct Snapshot {
+    capture_state: CaptureState,
+    start_backref: Vec<Option<usize>>,
+    end_backref: Vec<Option<usize>>,
 }
 
 #[derive(Debug, Clone)]
